@@ -28,7 +28,7 @@ PROP = "C15"
 LEVEL = "fault_enumeration"
 BUDGET = {"quick": 400, "thorough": 6000}
 RUN_TIMEOUT = 60
-RANDOM_PER_RUN = {"quick": 150, "thorough": 600}
+RANDOM_PER_RUN = {"quick": 1000, "thorough": 2000}
 MAX_LAYERS = 160
 LINE_BUDGET = 2000000        # traced lines allowed for one case (hang guard)
 CASE_CPU_S = 5.0             # CPU seconds before the traced re-run is made
@@ -855,18 +855,25 @@ def run_case(b, state=None, direct=False):
       break
     seen.add(id(x))
     layers.append(x)
-    parsed = x.parsed is True
+    missing = [a for a in ("parsed", "next", "raw") if not hasattr(x, a)]
+    if missing:
+      # a layer object that was never initialised as a packet_base
+      out.append(_oracle_finding(
+          "chain", "MissingAttr", x, "layer has no attribute %s"
+          % "/".join(missing)))
+    parsed = getattr(x, "parsed", False) is True
     names.append(type(x).__name__ + ("+" if parsed else "-"))
     raw = getattr(x, "raw", None)
     if raw is not None and not isinstance(raw, bytes):
       out.append(_oracle_finding("chain", "RawNotBytes", x,
                                  ".raw is a %s" % type(raw).__name__))
-    if not parsed and not isinstance(raw, bytes) \
-        and not isinstance(x.next, bytes):
+    nxt = getattr(x, "next", None)
+    if not parsed and not missing and not isinstance(raw, bytes) \
+        and not isinstance(nxt, bytes):
       out.append(_oracle_finding(
           "chain", "LostBytes", x,
           "unparsed layer keeps neither .raw nor a bytes payload"))
-    x = x.next
+    x = nxt
   chain = "/".join(names)
 
   # -- print ---------------------------------------------------------------
@@ -884,7 +891,12 @@ def run_case(b, state=None, direct=False):
   try:
     p.dump()
   except Exception as e:
-    out.append(_finding("dump", e))
+    f = _finding("dump", e)
+    # dump() prints every layer with str(); a layer whose str() raises has
+    # already been reported under the operation 'str' -- one defect, one id
+    if not any(y["op"] == "str" and y["id"] == f["id"].replace(
+        "C15-dump-", "C15-str-", 1) for y in out):
+      out.append(f)
   # -- re-serialise --------------------------------------------------------
   state["op"] = "pack"
   try:
@@ -1225,6 +1237,7 @@ def run_plan(plan):
           unknown.append((f, cid, descr, b))
       h.update(("%s|%s|%s\n" % (cid, chain, ",".join(ids))).encode())
 
+  extra["tier_" + str(plan.get("cfg", {}).get("tier", "quick"))] = 1
   cc = plan.get("cfg", {}).get("complete_chunk")
   if cc and cc[1] == BUDGET.get(plan["cfg"].get("tier"), -1) \
       and not plan.get("narrowed"):
@@ -1304,22 +1317,12 @@ def corpus_selfcheck():
 
 def extra_evidence(agg):
   ex = dict(agg.extra)
-  tier = None
-  nch = None
   covered = sorted(int(k[6:]) for k in ex if k.startswith("chunk_"))
-  for t, n in BUDGET.items():
-    if covered and max(covered) < n and (nch is None or n < nch):
-      pass
-  # the tier is the one whose chunk count can hold the run count
-  tier = os.environ.get("VERIF_TIER") or (
-      "thorough" if agg.n > BUDGET["quick"] else "quick")
-  for a in sys.argv:
-    if a in BUDGET:
-      tier = a
+  tier = "thorough" if ex.get("tier_thorough") else "quick"
   nch = BUDGET[tier]
   sigs = {k[4:]: v for k, v in ex.items() if k.startswith("sig:")}
   compact = {k: v for k, v in ex.items()
-             if not k.startswith("chunk_") and not k.startswith("sig:")}
+             if not k.startswith(("chunk_", "sig:", "tier_"))}
   reached, unreached = corpus_selfcheck()
   complete = len(set(covered)) == nch
   return {
